@@ -208,33 +208,35 @@ func (r *Rediaron) BatchUpdate(ctx context.Context, data map[string]string) erro
 	return nil
 }
 
+// luaBatchCreate sets all the keys or, when any of them exists, none
+var luaBatchCreate = redis.NewScript(`
+for _, key in ipairs(KEYS) do
+	if redis.call("exists", key) == 1 then
+		return 0
+	end
+end
+for i, key in ipairs(KEYS) do
+	redis.call("set", key, ARGV[i])
+end
+return 1
+`)
+
 // BatchCreate is wrapper to adapt etcd batch create
+// like the etcd transaction it creates all the keys or none of them
 func (r *Rediaron) BatchCreate(ctx context.Context, data map[string]string) error {
-	create := func(pipe redis.Pipeliner) error {
-		for key, value := range data {
-			pipe.SetNX(ctx, key, value, 0)
-		}
-		return nil
+	keys := make([]string, 0, len(data))
+	values := make([]any, 0, len(data))
+	for key, value := range data {
+		keys = append(keys, key)
+		values = append(values, value)
 	}
 
-	cmds, err := r.cli.TxPipelined(ctx, create)
+	created, err := luaBatchCreate.Run(ctx, r.cli, keys, values...).Int()
 	if err != nil {
 		return err
 	}
-
-	for _, cmd := range cmds {
-		bc, ok := cmd.(*redis.BoolCmd)
-		if !ok {
-			return ErrBadCmdType
-		}
-
-		created, err := bc.Result()
-		if !created {
-			return ErrAlreadyExists
-		}
-		if err != nil {
-			return err
-		}
+	if created != 1 {
+		return ErrAlreadyExists
 	}
 	return nil
 }
